@@ -90,10 +90,16 @@ type world struct {
 	wmSeq  int
 	roots  map[string]string // alloc|blobber -> current allocation root
 	lastOut string
+	chain   string // chain hash of the recorded lines (see record)
 	lastHash string
 }
 
-func newWorld(tag string, fork bool) (*world, error) {
+// newWorld: mode "1" = all hard forks active from round 0 (current rules); "0" = no fork recorded; "2" = as "1" and
+// the storage setting num_validators_rewarded is set to 0 by the contract owner's update_settings (a value the
+// contract's own Config.validate rejects, but which the post-demeter update_settings saves unvalidated: known finding
+// C48:storage-update-saved-invalid-config).
+func newWorld(tag string, mode string) (*world, error) {
+	fork := mode == "1" || mode == "2"
 	engine.Setup()
 	x := &world{tag: tag, nonce: map[string]int64{}, roots: map[string]string{}}
 	bal := map[string]currency.Coin{}
@@ -136,6 +142,11 @@ func newWorld(tag string, fork bool) (*world, error) {
 	// blobber reward from partition list") because a fresh blobber's RewardRound.StartRound is 0 as well
 	w.Round = 99
 	x.nextBlock()
+	if mode == "2" {
+		if r := x.exec(x.owner, "update_settings", 0, map[string]interface{}{"fields": map[string]string{"num_validators_rewarded": "0"}}); r.status != "ok" {
+			return nil, fmt.Errorf("update_settings num_validators_rewarded=0: %s %s", r.status, r.out)
+		}
+	}
 	return x, nil
 }
 
